@@ -183,6 +183,19 @@ func (r *vGRows) Next(dest []driver.Value) error {
 	return r.Rows.Next(dest)
 }
 
+// the end of a result set is a scheduling point only (no fault is injected there and the operation count is unchanged):
+// a request can be pre-empted between having read a profile and acting on what it read
+func (r *vGRows) Close() error {
+	err := r.Rows.Close()
+	r.g.mu.Lock()
+	sched, dis := r.g.sched, r.g.disabled
+	r.g.mu.Unlock()
+	if sched != nil && !dis {
+		sched.arrive(r.g.name, "close:"+r.q)
+	}
+	return err
+}
+
 // regate reopens the world's two sqlite files through the gate driver.
 func (w *vWorld) regate() (prim, cache *vGate) {
 	vGateReg.Do(func() { sql.Register("verifgate", &vGDriver{inner: &sqlite3.SQLiteDriver{}}) })
@@ -207,7 +220,8 @@ func (w *vWorld) regate() (prim, cache *vGate) {
 // ---------------------------------------------------------------------------
 // scheduler ("one running request"): at most one request runs at any time, every other one is either not started,
 // held at a synchronisation point, or finished; so whatever arrives at the gate belongs to the running request.
-// Synchronisation points: the first statement of a profile load and the begin of a write transaction.
+// Synchronisation points: the first statement of a profile load, the end of its result set (the profile has been read,
+// nothing has been decided yet) and the begin of a write transaction.
 
 type vSched struct {
 	mu      sync.Mutex
@@ -224,7 +238,7 @@ type vSchedEv struct {
 }
 
 func vIsSyncPoint(op string) bool {
-	return strings.HasPrefix(op, "prepare:select profile_data") || op == "begin"
+	return strings.HasPrefix(op, "prepare:select profile_data") || strings.HasPrefix(op, "close:select profile_data") || op == "begin"
 }
 
 func (s *vSched) arrive(db, op string) {
